@@ -67,3 +67,17 @@ package compiler
 //@          && o.Services[j].Args == old(o.Services)[j].Args && o.Services[j].Calls == old(o.Services)[j].Calls
 //@          && o.Services[j].Fields == old(o.Services)[j].Fields && o.Services[j].Tags == old(o.Services)[j].Tags
 //@          && o.Services[j].Todo == old(o.Services)[j].Todo
+
+// ---- C11 layer 1: the compile steps re-compile four grammar constants; they must denote the validated languages.
+//@ lemma lang_compilerDecoratorMethod(x string)
+//@   property C11 C14
+//@   ensures [equiv] matches(x, regexDecoratorMethod) <==> inLang(x, goFuncL())
+//@ lemma lang_compilerMetaGoFn(x string)
+//@   property C11 C14
+//@   ensures [equiv] matches(x, regexMetaGoFn) <==> inLang(x, goFuncL())
+//@ lemma lang_compilerServiceType(x string)
+//@   property C11 C14
+//@   ensures [equiv] matches(x, regexServiceType) <==> inLang(x, serviceTypeL())
+//@ lemma lang_compilerServiceConstructor(x string)
+//@   property C11 C14
+//@   ensures [equiv] matches(x, regexServiceConstructor) <==> inLang(x, goFuncL())
